@@ -511,3 +511,28 @@ package core
 //@ assert before call (*txList).Add: [replace-only-overlapping-pending] a0 == pool.pending[from] && in(c20Nonce(tx), a0.txs.items)
 //@ ensures [known-refused] old(pool.all.all[c20Hash(tx)]) != nil ==> result1 != nil && !result0
 //@ ensures [accepted-was-validated] result1 == nil ==> c20Valid == tx
+
+// ---------------------------------------------------------------------------------------------------------
+// Lock discipline of the read views (sequential permission reasoning; no interleaving is explored): (*txList).Flatten lazily
+// BUILDS and stores txSortedMap.cache, i.e. it writes shared pool state, so a view that calls it must hold pool.mu
+// exclusively — under the shared (read) lock two readers would write the cache concurrently and a reader could copy out
+// another reader's half-sorted cache (C20: "the pending view of an account is gap-free from its pending nonce").
+// c20Mu: 0 = pool.mu not held by this call, 1 = read-locked, 2 = write-locked.
+//@ ghost var c20Mu: int
+//@ func (*TxPool).Pending props C20
+//@ panics ignored
+//@ requires pool != nil
+//@ assume [lock-not-held-at-entry] c20Mu == 0
+//@ modifies all, c20Mu
+//@ ghost after call (*sync.RWMutex).Lock: c20Mu := 2
+//@ loop #1 invariant [lock-kept] c20Mu == entry(c20Mu)
+//@ assert before call (*txList).Flatten: [cache-writer-holds-exclusive-lock] c20Mu == 2
+//@ func (*TxPool).Content props C20
+//@ panics ignored
+//@ requires pool != nil
+//@ assume [lock-not-held-at-entry] c20Mu == 0
+//@ modifies all, c20Mu
+//@ ghost after call (*sync.RWMutex).Lock: c20Mu := 2
+//@ loop #1 invariant [lock-kept] c20Mu == entry(c20Mu)
+//@ loop #2 invariant [lock-kept] c20Mu == entry(c20Mu)
+//@ assert before call (*txList).Flatten: [cache-writer-holds-exclusive-lock] c20Mu == 2
